@@ -183,6 +183,7 @@ const (
 	ModeCopy    = "copy"    // FINAL_OUTPUT is the copy custom_func
 	ModeRich    = "rich"    // pass-through plus templates, arrays, custom funcs and javascript on the record
 	ModeFailFn  = "failfn"  // like failing, plus vf_fail(f1): records whose f1 contains the fail marker fail in a custom function
+	ModeFloat   = "float"   // n is cast to float: "NaN" / "Inf" parse as floats that JSON cannot carry (the record must fail, not vanish)
 )
 
 // Schema returns the schema JSON for a mode.
@@ -216,6 +217,9 @@ func (k *Kit) Schema(mode string) []byte {
 			if cname == "n" && (mode == ModeFailing || mode == ModeFailFn) {
 				f = map[string]interface{}{"xpath": cname, "type": "int"}
 			}
+			if cname == "n" && mode == ModeFloat {
+				f = map[string]interface{}{"xpath": cname, "type": "float"}
+			}
 			if cname == "f1" && mode == ModeFailFn {
 				f = map[string]interface{}{"custom_func": map[string]interface{}{"name": "vf_fail", "args": []interface{}{map[string]interface{}{"xpath": "f1"}}}}
 			}
@@ -241,6 +245,10 @@ func (k *Kit) Schema(mode string) []byte {
 				map[string]interface{}{"const": "JSON.parse(_node).id + ':' + JSON.parse(_node).n"}}}}
 			obj["dyn"] = map[string]interface{}{"xpath_dynamic": map[string]interface{}{"const": "n"}}
 			obj["uuid"] = map[string]interface{}{"custom_func": map[string]interface{}{"name": "uuidv3", "args": []interface{}{map[string]interface{}{"xpath": "id"}}}}
+			// a function of constants only, gated by its own xpath: present for some records, absent for others
+			obj["promo"] = map[string]interface{}{"xpath": "n[.!='0']", "custom_func": map[string]interface{}{"name": "concat", "args": []interface{}{
+				map[string]interface{}{"const": "promo-"}, map[string]interface{}{"const": "x", "no_trim": true}}}}
+			obj["promo2"] = map[string]interface{}{"xpath": "f1[.!='']", "custom_func": map[string]interface{}{"name": "upper", "args": []interface{}{map[string]interface{}{"const": "static"}}}}
 		}
 		final = map[string]interface{}{"object": obj}
 	}
@@ -639,7 +647,7 @@ func (k *Kit) OneRec(r *core.Rand, rec Rec, o RenderOpts, first, last bool) []by
 		if o.BlankLines {
 			sb.WriteString(nl + "  ")
 		}
-		sb.WriteString("<rec>")
+		fmt.Fprintf(&sb, `<rec num="%s">`, escText(nil, rec.Num, true, '"'))
 		for j, c := range k.colNames() {
 			fmt.Fprintf(&sb, "<%s>%s</%s>", c, escText(nil, rw[j], false, 0), c)
 			if c == "n" && rec.Dup {
